@@ -19,6 +19,12 @@ mod syntax_sugar_remover;
 
 pub use parser_logic::parse_definition;
 
+/// Verification hooks: re-exports of private items, compiled only with `--features verif`.
+#[cfg(feature = "verif")]
+pub mod verif_hooks {
+    pub use crate::parser_logic::preprocess;
+}
+
 use include_logic::FileStack;
 use program_structure::ast::{Version, AST};
 use program_structure::report::{Report, ReportCollection};
